@@ -85,21 +85,37 @@ fn main() {
 /// touched once per run / history, written into evidence.coverage.maxima at the end
 static MAXIMA: Mutex<BTreeMap<String, u64>> = Mutex::new(BTreeMap::new());
 
-fn note_max(name: String, v: u64) {
+thread_local! {
+    /// per-thread cache of the maxima already published, so that the global lock is only taken for a new maximum
+    static TL_MAX: std::cell::RefCell<std::collections::HashMap<String, u64>> = std::cell::RefCell::new(std::collections::HashMap::new());
+}
+
+fn note_max(name: &str, v: u64) {
+    let known = TL_MAX.with(|m| m.borrow().get(name).copied());
+    if matches!(known, Some(k) if k >= v) {
+        return;
+    }
+    TL_MAX.with(|m| m.borrow_mut().insert(name.to_string(), v));
     let mut m = MAXIMA.lock().unwrap();
-    let e = m.entry(name).or_insert(0);
+    let e = m.entry(name.to_string()).or_insert(0);
     if v > *e {
         *e = v;
     }
 }
 
 fn merge_counters(mon: &mut Monitor, prefix: &str, rep: &Report) {
+    let mut name = String::with_capacity(96);
     for (k, v) in &rep.counters {
-        let name = format!("{prefix}.{k}");
+        name.clear();
+        name.push_str(prefix);
+        name.push('.');
+        name.push_str(k);
         if k.contains(".max_") {
-            note_max(name, *v);
+            note_max(&name, *v);
+        } else if let Some(e) = mon.counters.get_mut(name.as_str()) {
+            *e += *v;
         } else {
-            mon.count_n(&name, *v);
+            mon.counters.insert(name.clone(), *v);
         }
     }
 }
@@ -307,7 +323,7 @@ fn phase_wake(mon: &mut Monitor) {
             m.count_n("W.waiters_served", out.served as u64);
             m.count_n("W.waiters_timed_out", out.timed_out as u64);
             m.count_n("W.S4_missed_wakeups", out.missed as u64);
-            note_max("W.max_latency_after_available_us".into(), out.max_latency_after_available_us);
+            note_max("W.max_latency_after_available_us", out.max_latency_after_available_us);
             for e in &out.errors {
                 m.count("W.scenario_errors");
                 if m.counter("W.scenario_errors") <= 1 {
@@ -362,11 +378,13 @@ fn style_name(c: &L2Cfg) -> &'static str {
 }
 
 /// total operations of run `i`: many short runs, some long ones
-fn l2_total_ops<R: RngCore>(rng: &mut R, tier: Tier) -> u64 {
+fn l2_total_ops<R: RngCore>(rng: &mut R, tier: Tier, with_delay: bool) -> u64 {
+    // runs with the delay table spend most of their time in the seeded delays: their long runs are shorter
+    let top = if with_delay { 300_000.0 } else { 1_000_000.0 };
     let (lo, hi): (f64, f64) = match below(rng, 10) {
         0..=4 => (300.0, 10_000.0),
-        5..=8 => (10_000.0, tier.pick(100_000.0, 300_000.0)),
-        _ => (tier.pick(30_000.0, 100_000.0), tier.pick(150_000.0, 1_000_000.0)),
+        5..=8 => (10_000.0, tier.pick(100_000.0, 200_000.0)),
+        _ => (tier.pick(30_000.0, 100_000.0), tier.pick(150_000.0, top)),
     };
     let u = (rng.next_u64() >> 11) as f64 / (1u64 << 53) as f64;
     (lo * (hi / lo).powf(u)) as u64
@@ -381,7 +399,7 @@ struct L2RunId<'a> {
 
 fn l2_make(mon: &Monitor, id: &L2RunId) -> (L2Cfg, [u8; 32], u64) {
     let mut rng = mon.rng(id.label, id.stream);
-    let total = l2_total_ops(&mut rng, id.tier);
+    let total = l2_total_ops(&mut rng, id.tier, id.with_delay);
     let cfg = gen_l2_cfg(&mut rng, total, id.with_delay, false, 11);
     let mut seed = [0u8; 32];
     rng.fill_bytes(&mut seed);
@@ -392,8 +410,8 @@ fn phase_l2(mon: &mut Monitor, phase: &'static str, with_delay: bool, par: usize
     let (shards, per) = match (mon.tier, with_delay) {
         (Tier::Quick, false) => (12u64, 10u64),
         (Tier::Quick, true) => (12, 14),
-        (Tier::Thorough, false) => (48, 40),
-        (Tier::Thorough, true) => (48, 60),
+        (Tier::Thorough, false) => (32, 24),
+        (Tier::Thorough, true) => (32, 24),
     };
     let label = if with_delay { "l2-delay" } else { "l2-plain" };
     let coarse: Mutex<HashSet<u64>> = Mutex::new(HashSet::new());
